@@ -1,4 +1,5 @@
 import SasLexer.Lex.Main
+import SasLexer.Spec.Basic
 open SasLexer
 
 def srcOfHexLine (line : String) : Option (List Char) := charsOfHex line.trimAscii.toString
@@ -8,6 +9,28 @@ partial def loopLines (h : IO.FS.Stream) (out : IO.FS.Stream) (f : String → St
   if line.isEmpty then return ()
   out.putStrLn (f (line.dropEndWhile (· == '\n')).toString)
   loopLines h out f
+
+/-- verdict of one dump-level property on (source, dump) -/
+def verdict1 (prop : String) (s : List Char) (d : Dump) : Option Spec.Verdict :=
+  match prop with
+  | "C02" => some (Spec.C02 s d)
+  | "C03" => some (Spec.clause "char-offsets" (Spec.C03 s d) ++ Spec.clause "slices" (Spec.C03slices s d))
+  | "C04" => some (Spec.C04 s d)
+  | "C05" => some (Spec.C05 s d)
+  | "C09" => some (Spec.C09 s d)
+  | _ => none
+
+def checkLine (line : String) : String :=
+  match line.splitOn "\t" with
+  | [prop, hex, dump] =>
+    match charsOfHex hex, parseDump dump with
+    | some s, some d =>
+      match verdict1 prop s d with
+      | some [] => "ok"
+      | some cs => "fail " ++ ",".intercalate cs
+      | none => "unknown-property"
+    | _, _ => "badinput"
+  | _ => "badinput"
 
 def cfgOf (d m : String) : Cfg := { debug := d == "1", macroSep := m == "1" }
 
@@ -21,6 +44,9 @@ def main (args : List String) : IO UInt32 := do
       match srcOfHexLine line with
       | some s => (modelDump cfg s).format
       | none => "badinput"
+    return 0
+  | ["check"] =>
+    loopLines stdin stdout checkLine
     return 0
   | _ =>
     IO.eprintln "usage: sasmodel dump <debug 0|1> <macro_sep 0|1>"
